@@ -9,6 +9,7 @@ from typing import Callable, Dict, List, Optional
 
 from vlib.core.ctx import stable_hash
 from vlib.e1 import monitors as Mon
+from vlib.e1 import monitors2 as Mon2
 from vlib.e1 import phases
 from vlib.gen import wfgen
 from vlib.models import gtmodel
@@ -17,6 +18,8 @@ MONITORS = {
     'ledger': Mon.Ledger, 'c26': Mon.C26Pool, 'c09': Mon.C09Lifecycle,
     'c07': Mon.C07Bounds, 'c02': Mon.C02Once, 'c10': Mon.C10Messages,
     'c01': Mon.C01Graph, 'end': Mon.EndState,
+    'c03': Mon2.C03Progress, 'c04': Mon2.C04Runahead, 'c05': Mon2.C05Queues,
+    'c11': Mon2.C11Retention, 'c31': Mon2.C31Sequential,
 }
 
 
@@ -199,7 +202,10 @@ def run_case(ctx, tag: str, case: dict, phase_list: List[dict],
                 if isinstance(summ, dict):
                     for k, val in summ.items():
                         if isinstance(val, int) and not isinstance(val, bool):
-                            ctx.count(f'{name}.{k}', val)
+                            if k.startswith('max_'):
+                                ctx.maxc(f'{name}.{k}', val)
+                            else:
+                                ctx.count(f'{name}.{k}', val)
             for k, val in (res.get('counts') or {}).items():
                 ctx.count(f'ev.{k}', val)
         return results
